@@ -49,7 +49,7 @@ var Prop = &engine.Prop{
 		"mock mode: the code of a phone shorter than CodeLen is the phone left-padded with '0' (the only padding that keeps 'the last CodeLen digits' of the number)",
 		"alphabets of the nonce generator are non-empty strings of single-byte characters; whole-alphabet coverage is judged over >= 1200*len(alphabet) drawn characters (miss probability < 1e-500 for a uniform draw)",
 	},
-	ShardsQuick: 4, ShardsThorough: 48,
+	ShardsQuick: 4, ShardsThorough: 16,
 	Kinds: []engine.Kind{
 		{Name: "history", Quick: 40000, Thorough: 4800000, Fn: historyCase},
 		{Name: "attempts", Quick: 10000, Thorough: 1200000, Fn: attemptsCase},
